@@ -276,6 +276,10 @@ def models(W):
             raise Unsupported("is_procedure of %r" % (t,))
         return flow.mkbool(P, z3.Bool("isproc_" + str(t)))
 
+    @m("Signature::is_subr: a solver boolean per asked place (a subroutine definition does not evaluate its body)")
+    def is_subr(flow, P, callee, args):
+        return flow.mkbool(P, z3.Bool("subr_" + place_key(flow, P, args[0])))
+
     @m("Signature / Token / Identifier ::is_procedural: a solver boolean per asked place")
     def is_procedural(flow, P, callee, args):
         return flow.mkbool(P, z3.Bool("procname_" + place_key(flow, P, args[0])))
@@ -290,6 +294,7 @@ def models(W):
         (r"SideEffectChecker::<'_>::is_impure$|SideEffectChecker::is_impure$", rec),
         (r"as (ty::)?HasType>::(ref_t|t)$", ref_t),
         (r"Type::is_procedure$", is_proc),
+        (r"^(hir::)?Signature::is_subr$", is_subr),
         (r"^(hir::)?Signature::is_procedural$|Token::is_procedural$|Identifier::is_procedural$|^(hir::)?Lambda::is_procedural$", is_procedural),
     ]
 
@@ -358,8 +363,10 @@ def eff_ref(tree, sp, place, path):
         if pl[2] == "Attr":
             out.append(sub_expr(tree, pl[3][2]["obj"][1]))
     elif v == "Def":
+        # a variable definition evaluates its body; a subroutine definition only creates the subroutine
+        notsubr = z3.Not(z3.Bool("subr_" + tree.key(place, ppath + [fld("Def", "sig")])))
         for ch in pl[2]["body"][2]["block"][2]["0"][1]:
-            out.append(sub_expr(tree, ch))
+            out.append(z3.And(notsubr, sub_expr(tree, ch)))
     elif v in ("Code", "Compound"):
         for ch in pl[2]["0"][1]:
             out.append(sub_expr(tree, ch))
@@ -427,7 +434,7 @@ def shapes(tier):
     L = leaf
     out = [
         ("call/args", call(("expr", "Accessor", ("enum", "Accessor", "Ident", ("opaque", "id"))), False, args(pos=[L("a")], kw=[L("k")])), "x = f(«a», y:=«k»)", "x = pp!(«a», y:=«k»)"),
-        ("call/var-args", call(("expr", "Accessor", ("enum", "Accessor", "Ident", ("opaque", "id"))), False, args(pos=[L("a")], var=L("v"))), None, None),
+        ("call/var-args", call(("expr", "Accessor", ("enum", "Accessor", "Ident", ("opaque", "id"))), False, args(pos=[L("a")], var=L("v"))), "x = h(«a», *[«v», 1])", None),
         ("call/method", call(L("o"), True, args()), "x = «o».succ()", None),
         ("binop", expr("BinOp", st("BinOp", lhs=("box", L("l")), rhs=("box", L("r")))), "x = «l» + «r»", None),
         ("unaryop", expr("UnaryOp", st("UnaryOp", expr=("box", L("e")))), "x = -«e»", None),
@@ -455,7 +462,7 @@ def shapes(tier):
     return out
 
 
-PRELUDE = "p!() =\n    print! \"hello\"\n    1\npp!(z, y := 1) =\n    print! \"hello\"\n    z + y\nf(z, y := 1) = z + y\n"
+PRELUDE = "p!() =\n    print! \"hello\"\n    1\npp!(z, y := 1) =\n    print! \"hello\"\n    z + y\nf(z, y := 1) = z + y\nh(*ys: Nat) = ys\n"
 
 
 def program(template, assign):
@@ -655,7 +662,7 @@ def run(tier, seed, only=None):
             outs = set()
             for Q, rv in paths:
                 tr = S.truth(flow, rv)
-                own_false = [d == False for d in z3.z3util.get_vars(z3.And(Q.pc + [tr])) if str(d).startswith(("isproc_", "procname_"))]
+                own_false = [d == False for d in z3.z3util.get_vars(z3.And(Q.pc + [tr])) if str(d).startswith(("isproc_", "procname_", "subr_"))]
                 if check(Q.pc + pins + own_false + [tr])[0] == "sat":
                     outs.add("true")
                 if check(Q.pc + pins + own_false + [z3.Not(tr)])[0] == "sat":
@@ -685,7 +692,8 @@ def run(tier, seed, only=None):
         rep.assumptions += sorted(used) + [
             "what counts as an effect is taken from check_expr: a call whose callee has a procedure type or whose method name is procedural",
             "eagerly evaluated children: callee, receiver and arguments of a call; operands; elements, keys and values of literals; the initialisers of record fields; "
-            "the ascribed expression; the receiver of an attribute access; the chunks of a variable definition's body and of a block; a lambda's body is not evaluated",
+            "the ascribed expression; the receiver of an attribute access; the chunks of a variable definition's body and of a block; the bodies of lambdas and of subroutine definitions are not evaluated "
+            "(default-parameter values of a subroutine definition, which are, are outside the decided shapes)",
             "ClassDef / PatchDef / ReDef / Import nodes are outside (not produced as initialisers of plain variable definitions in the decided fragment)",
         ]
         rep.extra["z3_queries"] = nq[0]
